@@ -433,6 +433,7 @@ class ScaledInteger(HasUnit, DataType):
 
     def export_datatype(self):
         return self.get_info(type='scaled',
+                             scale=self.scale,
                              min=int(round(self.min / self.scale)),
                              max=int(round(self.max / self.scale)))
 
@@ -594,7 +595,8 @@ class BLOBType(DataType):
         super().checkProperties()
 
     def export_datatype(self):
-        return self.get_info(type='blob')
+        # maxbytes is mandatory: export it also when it is 0
+        return self.get_info(type='blob', maxbytes=self.maxbytes)
 
     def __repr__(self):
         return f'BLOBType({self.minbytes}, {self.maxbytes})'
